@@ -278,7 +278,8 @@ func (n *CandidateNode) GetValueRep() (interface{}, error) {
 		// need to test this
 		return strconv.ParseFloat(n.Value, 64)
 	case "!!bool":
-		return isTruthyNode(n), nil
+		// the node's own tag may be a custom one (`!flag false`): the value decides, not the tag
+		return isTruthyNode(&CandidateNode{Kind: ScalarNode, Tag: "!!bool", Value: n.Value}), nil
 	case "!!null":
 		return nil, nil
 	}
